@@ -2,7 +2,7 @@
 (***************************************************************************)
 (* Model instances of FormatLab for C04.                                    *)
 (*                                                                         *)
-(* Trees are all plain-data dicts of bounded WEIGHT: a core leaf, an empty  *)
+(* Trees (grown entry by entry, see FormatLab!Grow) are all plain-data dicts of bounded WEIGHT: a core leaf, an empty  *)
 (* list and an empty dict weigh 1, an exotic leaf weighs 2, a container     *)
 (* weighs 1 plus its children.  Budget is the weight allowed below the root *)
 (* (Budget = 4: "up to 5 nodes").  The top level uses RootKeys, nested maps *)
@@ -10,8 +10,7 @@
 (***************************************************************************)
 EXTENDS FormatLab, Json
 
-CONSTANTS Budget,     \* weight below the root dict
-          MaxDepth    \* nesting depth of containers below the root
+CONSTANTS MaxDepth    \* nesting depth of containers below the root
 
 S(x) == StrV(x)
 K1     == <<"k","1">>
@@ -69,7 +68,7 @@ RECURSIVE TabAt(_)
 TabAt(d) == IF d = MaxDepth THEN LeafTab ELSE Up(TabAt(d + 1), NestKeys)
 
 \* a few trees outside some format's domain or with awkward keys
-ExtraTrees ==
+MCFixedTrees ==
     { DictV(<< <<S(<<"1">>), IntV(1)>> >>),                       \* key is not an XML name
       DictV(<< <<S(<<"a"," ","b">>), BoolV(TRUE)>> >>),
       DictV(<< <<S(<<>>), S(<<>>)>> >>),                          \* empty key
@@ -78,11 +77,9 @@ ExtraTrees ==
       DictV(<< <<S(<<"_">>), DictV(<< <<S(<<"=">>), IntV(1)>> >>)>> >>),
       DictV(<< <<S(<<"x","m","l">>), FloatH(-1)>>, <<S(<<"A">>), S(<<"a">>)>>, <<S(<<"a">>), S(<<"A">>)>> >>) }
 
-MCTrees ==
-    LET rt == SeqTabs(TabAt(0), Budget)
-    IN  UNION {{DictV(Zip(ks, s)) : ks \in KeySeqs(RootKeys, m),
-                                    s \in UNION {rt[m + 1][w] : w \in m..Budget}} : m \in 0..Budget}
-        \cup ExtraTrees
+MCGrowKeys == RootKeys
+\* candidate values of a top-level entry, by weight
+MCGrowVals == LET tab == TabAt(0) IN [w \in 1..Budget |-> tab[w]]
 
 \* the plan: every format, every option value, and two loads with the wrong root tag
 O == DefaultOpts
@@ -114,14 +111,16 @@ MCElems ==
     \cup {Elem(tag, "dict", <<>>, <<>>) : tag \in {KConf, KA}}
 
 ---------------------------------------------------------------------------
-(* export of complete sessions, one JSON line each *)
+(* export: the plan once, one line per session start, one JSON line per complete session *)
 Slim(r) ==
-    [fmt |-> r.fmt, opts |-> r.opts, lopts |-> r.lopts, skipped |-> r.skipped,
-     elem |-> r.elem,
+    [skipped |-> r.skipped, elem |-> r.elem,
      out |-> IF r.out.ok /\ r.out.v = lab.t THEN [ok |-> TRUE, same |-> TRUE] ELSE r.out]
+IsStart == lab.mode = "tree" /\ lab.pc = 1 /\ lab.stage = "idle"
 PCase ==
-    Final => IF lab.mode = "tree"
-             THEN PrintT(<<"CASE", ToJson([mode |-> "tree", t |-> lab.t,
-                                           runs |-> [i \in DOMAIN lab.runs |-> Slim(lab.runs[i])]])>>)
-             ELSE PrintT(<<"CASE", ToJson([mode |-> "elem", e |-> lab.e, out |-> lab.out])>>)
+    /\ (TLCGet("level") = 1 /\ lab.mode = "tree" /\ lab.t.kv = <<>>) => PrintT(<<"PLAN", ToJson(Plan)>>)
+    /\ IsStart => PrintT(<<"INIT", ToJson([n |-> Len(lab.t.kv)])>>)
+    /\ Final => IF lab.mode = "tree"
+                THEN PrintT(<<"CASE", ToJson([mode |-> "tree", t |-> lab.t,
+                                              runs |-> [i \in DOMAIN lab.runs |-> Slim(lab.runs[i])]])>>)
+                ELSE PrintT(<<"CASE", ToJson([mode |-> "elem", e |-> lab.e, out |-> lab.out])>>)
 =============================================================================
